@@ -312,6 +312,8 @@ def run(m, tier):
     results.append(two_roundtrip.block_printer_rule(m, "C11.R14"))
     from rules import reader_interp
     results.append(reader_interp.comments_rule(m, "C11.R13", tier))
+    from rules import prog_rules
+    results.append(prog_rules.comments_rule(m, "C11.R16", tier))
     expl = ("Decides structural clauses of C11: per call site of the block engine the class list tried at every position contains the "
             "comment, include, preprocessor (and, exactly under process_directives, directive) classes; comments are collected before "
             "each opening statement and around every program unit, with both collectors in every round; every reader item and every "
